@@ -99,3 +99,35 @@ func isPointwise(t *Term) bool {
 	}
 	return false
 }
+
+// time.Time as nanoseconds since the Unix epoch (UTC). AddDate with years == months == 0 adds whole days of
+// 86400 s, which is exact for times in UTC (the only location the verified code uses it with).
+func init() {
+	nano := func(ex *Exec) *Term { return ex.f.Int(1000000000) }
+	regSimple("time.Unix", func(ex *Exec, a []*Term) *Term { return ex.f.Add(ex.f.Mul(a[0], nano(ex)), a[1]) })
+	T := "(time.Time)."
+	regSimple(T+"UTC", func(ex *Exec, a []*Term) *Term { return a[0] })
+	regSimple(T+"Local", func(ex *Exec, a []*Term) *Term { return a[0] })
+	regSimple(T+"Unix", func(ex *Exec, a []*Term) *Term { return ex.f.Div(a[0], nano(ex)) })
+	regSimple(T+"UnixNano", func(ex *Exec, a []*Term) *Term { return a[0] })
+	regSimple(T+"After", func(ex *Exec, a []*Term) *Term { return ex.f.Gt(a[0], a[1]) })
+	regSimple(T+"Before", func(ex *Exec, a []*Term) *Term { return ex.f.Lt(a[0], a[1]) })
+	regSimple(T+"Equal", func(ex *Exec, a []*Term) *Term { return ex.f.Eq(a[0], a[1]) })
+	regSimple(T+"Add", func(ex *Exec, a []*Term) *Term { return ex.f.Add(a[0], a[1]) })
+	regSimple(T+"Sub", func(ex *Exec, a []*Term) *Term { return ex.f.Sub(a[0], a[1]) })
+	regSimple(T+"IsZero", func(ex *Exec, a []*Term) *Term {
+		return ex.f.Eq(a[0], ex.f.Mul(ex.f.Int(-62135596800), nano(ex)))
+	})
+	reg(T+"AddDate", func(fr *Frame, st *State, c *ssa.CallCommon, a []*Term) ([]*Term, bool) {
+		ex := fr.ex
+		if a[1].op != "int" || a[1].ival.Sign() != 0 || a[2].op != "int" || a[2].ival.Sign() != 0 {
+			return nil, false
+		}
+		ex.trustedUsed["lib:time.Time.AddDate(0,0,d) adds d*86400 s (exact for UTC times)"] = true
+		return []*Term{ex.f.Add(a[0], ex.f.Mul(a[3], ex.f.Mul(ex.f.Int(86400), nano(ex))))}, true
+	})
+	D := "(time.Duration)."
+	regSimple(D+"Seconds", func(ex *Exec, a []*Term) *Term { return ex.f.RDiv(ex.f.ToReal(a[0]), ex.f.ToReal(nano(ex))) })
+	regSimple(D+"Nanoseconds", func(ex *Exec, a []*Term) *Term { return a[0] })
+	regSimple(D+"Milliseconds", func(ex *Exec, a []*Term) *Term { return ex.truncDiv(a[0], ex.f.Int(1000000)) })
+}
